@@ -765,3 +765,26 @@ def fam_cluster_conc(tier, base):
 
 ALSO["C22"] = ["cluster_conc"]
 ALSO["C10"] = ["cluster_conc"]
+
+
+# =========================================================================== Cluster histories: C10 (+C11, C22 composed)
+@family("cluster_hist")
+def fam_cluster_hist(tier, base):
+    q = tier == "quick"
+    inputs, trace = base + ".in.ndjson", base + ".trace.ndjson"
+    seen = set()
+    with open(inputs, "w") as f:
+        n, gen = _sim_inputs("MC_ClusterHist", "MC_ClusterHist_sim.cfg", 60 if q else 3000, 10, f, seen, keep=140 if q else 6000)
+    b = verif.build_driver("cluster")
+    verif.run_driver_sharded(b, "TestClusterHistories", inputs, trace, shards=14, timeout=7000)
+    os.remove(inputs)
+    viols, tr = verif.validate_trace("Trace_Cluster", "Trace_Cluster.cfg", trace, heap="16g")
+    lines = verif.read_lines(trace)
+    cnt = lambda s: sum(1 for ln in lines if s in ln)
+    return dict(trace=trace, viols=viols, states=max(1, gen), transitions=gen, configs=["MC_ClusterHist_sim.cfg", "Trace_Cluster.cfg"], window=60, exhaustive=False,
+                traces={"*": cnt('"ev":"Run"')}, samples={"*": [json.loads(x) for x in lines[:1]]}, nontrivial={"C10": cnt('"ev":"Run"'), "C11": cnt('"class":"injected"'), "C22": cnt('"ev":"Run"')},
+                notes="%d TLC-simulated histories of 6 API calls (create with 3 strategies, remove, dissociate, realloc with 7 deltas, replace, set-node), each call with or without an injected failure at its 3rd..20th external call, on plain and NUMA node layouts; %d calls, the state judged after every one" % (n, cnt('"ev":"Run"')))
+
+
+ALSO["C10"] = ["cluster_conc", "cluster_hist"]
+ALSO["C11"] = ["cluster_hist"]
